@@ -172,6 +172,55 @@ func zzC08_routing() {
 	}
 }
 
+// a notification racing with Cancel (2 threads): once Cancel has returned no later notification reaches the callback
+func zzC08_cancel_race() {
+	cc := &zzClient{ctx: context.Background(), answer: true, respCode: codes.Content}
+	h := NewHandler(cc, func(w *responsewriter.ResponseWriter[*zzClient], r *pool.Message) {},
+		func(req *pool.Message) (*pool.Message, error) {
+			resp := pool.NewMessage(context.Background())
+			resp.SetCode(codes.Content)
+			resp.SetToken(req.Token())
+			return resp, nil
+		})
+	cc.h = h
+	tok := message.Token{0xA1}
+	calls := 0
+	cancelled := false
+	late := 0
+	req := pool.NewMessage(context.Background())
+	req.SetCode(codes.GET)
+	req.SetToken(tok)
+	req.SetObserve(0)
+	o, err := h.NewObservation(req, func(r *pool.Message) {
+		calls++
+		if cancelled {
+			late++
+		}
+	})
+	symAssert(err == nil, "registration succeeds")
+	if err != nil {
+		return
+	}
+	done := false
+	go func() {
+		h.Handle(responsewriter.New(pool.NewMessage(cc.ctx), cc), zzNotification(tok, true, 10))
+		h.Handle(responsewriter.New(pool.NewMessage(cc.ctx), cc), zzNotification(tok, true, 11))
+		done = true
+	}()
+	_ = o.Cancel(context.Background())
+	cancelled = true
+	symWaitUntil(func() bool { return done })
+	// notifications that arrive after Cancel returned
+	h.Handle(responsewriter.New(pool.NewMessage(cc.ctx), cc), zzNotification(tok, true, 12))
+	symCover("raced")
+	symAssert(o.Canceled(), "the observation is cancelled")
+	_, still := h.GetObservation(tok.Hash())
+	symAssert(!still, "no observation entry is left")
+	before := calls
+	h.Handle(responsewriter.New(pool.NewMessage(cc.ctx), cc), zzNotification(tok, true, 13))
+	symAssert(calls == before, "once cancellation has returned no notification arriving later reaches the callback")
+}
+
 func zzC08_selftest() {
 	v1, v2 := symU32("old"), symU32("new")
 	symAssert(!ValidSequenceNumber(v1, v2, time.Unix(0, 1<<41), time.Unix(0, 1<<41)), "selftest: must fail")
